@@ -22,6 +22,7 @@ type Solver struct {
 	timeout int // ms per query
 	log     *os.File
 	pending bool
+	killed  bool
 
 	// statistics
 	queries  int
@@ -147,9 +148,33 @@ func (s *Solver) Assert(t *Term) {
 	s.send("(assert " + s.em.ref(t) + ")\n")
 }
 
+type lineRes struct {
+	line string
+	err  error
+}
+
+// readLine reads one line of solver output. A watchdog kills a solver that
+// ignores its own timeout (z3's nonlinear engines sometimes do); the caller
+// then sees an error and the path is abandoned as inconclusive.
 func (s *Solver) readLine() (string, error) {
-	line, err := s.out.ReadString('\n')
-	return strings.TrimSpace(line), err
+	ch := make(chan lineRes, 1)
+	out := s.out
+	go func() {
+		line, err := out.ReadString('\n')
+		ch <- lineRes{strings.TrimSpace(line), err}
+	}()
+	limit := time.Duration(2*s.timeout+5000) * time.Millisecond
+	select {
+	case r := <-ch:
+		return r.line, r.err
+	case <-time.After(limit):
+		s.killed = true
+		if s.cmd != nil && s.cmd.Process != nil {
+			s.cmd.Process.Kill()
+		}
+		<-ch
+		return "", fmt.Errorf("solver watchdog: no answer within %v", limit)
+	}
 }
 
 // Check returns satisfiability of PC ∧ extra (extra may be nil).
@@ -181,7 +206,8 @@ func (s *Solver) Check(extra *Term) SatResult {
 		s.nErrors++
 		s.restart()
 		s.nUnknown++
-		return Unknown
+		// the solver context is gone: the current path cannot be continued soundly
+		panic(pathAbort{kind: "solver", msg: "solver died or ignored its timeout: " + err.Error()})
 	}
 	switch {
 	case line == "sat":
